@@ -55,7 +55,7 @@ Proof.
   split; [apply wf_storeb_sound; vm_compute; reflexivity|].
   split; [vm_compute; reflexivity|]. split; [vm_compute; reflexivity|]. split.
   - right. right. exists "metadata/manifests/l1.avro", ["metadata/manifests/m1.avro"], "metadata/manifests/m1.avro", ["/data/a.parquet"], "/data/a.parquet".
-    repeat split; simpl; auto; eexists; exists FAvro; split; reflexivity.
+    repeat split; simpl; auto; eexists; split; reflexivity.
   - exists "metadata/inflight/tx.parquet.inflight", (mkObj 999000 (CMarker (Some "data/tx.parquet"))).
     repeat split; try reflexivity. vm_compute. discriminate.
 Qed.
